@@ -253,7 +253,13 @@ class C06:
         if name in ("tsp_kopt", "pdp_ruin_repair"):
             _improvement(run, env, cfg, row)
         else:
-            _constructive(run, env, cfg, row)
+            # exact integer verdict on the capacity constraint for k/Q demands (an exactly full vehicle is
+            # feasible; float32 summation order must not decide)
+            RR.INTEGER_CAPACITY = "verdict" if run.plan["base"] == "ref" else True
+            try:
+                _constructive(run, env, cfg, row)
+            finally:
+                RR.INTEGER_CAPACITY = False
 
 
 def _verdict(ref, acts):
